@@ -166,7 +166,16 @@ class OutgoingRIB(Cache):
             self.add_to_rib(route, True)
 
         for index in list(indexed):
-            self.del_from_rib(indexed.pop(index))
+            self._remove_configured(index, indexed.pop(index))
+
+    def _remove_configured(self, index: bytes, route: Route) -> None:
+        self.del_from_rib(route)
+        # the route left the configuration: its watchdog must not be able to bring it back ('announce watchdog'
+        # re-announced routes which only the previous configuration held)
+        # (the watchdog attribute has been taken off the route by the time it is stored: look the index up)
+        for states in self._watchdog.values():
+            for state in ('+', '-'):
+                states.get(state, {}).pop(index, None)
 
     def replace_reload(self, previous: list[Route], new: list[Route]) -> None:
         if not self.enabled:
@@ -183,7 +192,7 @@ class OutgoingRIB(Cache):
                 continue
 
         for index in list(indexed):
-            self.del_from_rib(indexed.pop(index))
+            self._remove_configured(index, indexed.pop(index))
 
     def add_to_rib_watchdog(self, route: Route) -> bool:
         if not self.enabled:
